@@ -522,6 +522,7 @@ struct Harness
                 for (long i = -num - 1; i <= mem + 1 && ck.ok(); ++i)
                 {
                     if (i >= 0 && a_str_at(s, (a_size)i) != (i < mem ? s->ptr_ + i : nullptr)) { ck.fail("accessor-at", "at(" + std::to_string(i) + ")"); }
+                    if (i >= 0 && i < mem && a_str_at_(s, (a_size)i) != s->ptr_ + i) { ck.fail("accessor-at", "at_(" + std::to_string(i) + ")"); }
                     size_t k = i >= 0 ? (size_t)i : (size_t)i + (size_t)num;
                     if (a_str_of(s, (a_diff)i) != (k < (size_t)mem ? s->ptr_ + k : nullptr)) { ck.fail("accessor-of", "of(" + std::to_string(i) + ")"); }
                 }
